@@ -28,10 +28,19 @@ def seed():
         return 0
 
 
+class SafeRandom(random.Random):
+    """random.Random whose sample() clamps k to the population size (a generator asking for more
+    samples than there are candidates takes them all instead of crashing the suite)"""
+
+    def sample(self, population, k, **kw):
+        population = list(population)
+        return super().sample(population, max(0, min(int(k), len(population))), **kw)
+
+
 def rng(name):
     """one PRNG per suite, all derived from VERIF_SEED"""
     h = int(hashlib.sha256(name.encode()).hexdigest()[:12], 16)
-    return random.Random((seed() << 48) ^ h)
+    return SafeRandom((seed() << 48) ^ h)
 
 
 def run(cmd, timeout=None, cwd=None, env=None):
